@@ -1008,4 +1008,69 @@ theorem stepEndTag_sim {H : List Handler} {enc : Enc} {ms : St} {ss : SpecSt} (h
           simp only at this
           rw [← this, hemit]
 
+
+/-! ### H. Whole runs -/
+
+theorem step_sim {H : List Handler} {enc : Enc} {ms : St} {ss : SpecSt} (h : Sim H enc ms ss)
+    (tok : SrcToken) (hn : closesInnermost ss tok = true) :
+    Sim H enc (Model.step H enc ms tok).1 (Spec.EditDoc.step H enc ss tok).1
+      ∧ (Model.step H enc ms tok).2 = (Spec.EditDoc.step H enc ss tok).2 := by
+  cases tok with
+  | text raw => exact step_text_sim h raw
+  | comment t raw => exact step_comment_sim h t raw
+  | doctype raw => exact step_doctype_sim h raw
+  | startTag n a sc ns raw => exact stepStartTag_sim h n a sc ns raw
+  | endTag n raw =>
+    apply stepEndTag_sim h n raw
+    intro idx hidx
+    simp only [closesInnermost, hidx] at hn
+    simpa using hn
+
+theorem steps_sim {H : List Handler} {enc : Enc} (toks : List SrcToken) {ms : St} {ss : SpecSt}
+    (h : Sim H enc ms ss) (hn : nestedRun H enc ss toks = true) :
+    Sim H enc (Model.steps H enc ms toks).1 (Spec.EditDoc.steps H enc ss toks).1
+      ∧ (Model.steps H enc ms toks).2.flatten = (Spec.EditDoc.steps H enc ss toks).2
+      ∧ (Spec.EditDoc.steps H enc ss toks).1.openEls.any (elHasEndEdits enc) = false := by
+  induction toks generalizing ms ss with
+  | nil =>
+    simp only [nestedRun, Bool.not_eq_true'] at hn
+    exact ⟨h, rfl, hn⟩
+  | cons t ts ih =>
+    simp only [nestedRun, Bool.and_eq_true] at hn
+    have h1 := step_sim h t hn.1
+    have h2 := ih h1.1 hn.2
+    simp only [Model.steps, Spec.EditDoc.steps, List.flatten_cons]
+    exact ⟨h2.1, by rw [h1.2, h2.2.1], h2.2.2⟩
+
+theorem Sim_init (H : List Handler) (enc : Enc) : Sim H enc (St.init H) {} :=
+  ⟨rfl, rfl, Rel.nil, fun i => by simp [base, occ, St.init], RInv_init H, rfl,
+   fun it hit => by simp [St.init] at hit⟩
+
+theorem closeAllImplicit_nil_of_clean (enc : Enc) (s : SpecSt) (els below : List OpenEl)
+    (h : els.any (elHasEndEdits enc) = false) : closeAllImplicit enc s els below = [] := by
+  induction els generalizing below with
+  | nil => rfl
+  | cons o os ih =>
+    simp only [List.any_cons, Bool.or_eq_false_iff] at h
+    simp only [closeAllImplicit, ih _ h.2, List.append_nil, closeImplicit]
+    cases hed : o.edit with
+    | none => rfl
+    | some e =>
+      have h1 := h.1
+      simp only [elHasEndEdits, hed, hasEndEdits, Bool.or_eq_false_iff, Bool.not_eq_false',
+        List.isEmpty_iff] at h1
+      simp [Spec.EditDoc.emit, h1.1.1.1.1, h1.1.1.1.2]
+
+/-- **Refinement**: on well-nested runs the dispatcher model produces the documented edit. -/
+theorem rewrite_refines (H : List Handler) (enc : Enc) (toks : List SrcToken)
+    (hn : nestedRun H enc {} toks = true) :
+    (Model.rewrite H enc toks).2 = Spec.EditDoc.rewrite H enc toks
+      ∧ (Model.rewrite H enc toks).1.fault = false ∧ (Model.rewrite H enc toks).1.faultRemoved = false := by
+  obtain ⟨hs, ho, hclean⟩ := steps_sim toks (Sim_init H enc) hn
+  obtain ⟨hf, hfo, _, hopen⟩ := flush_sim hs
+  unfold Model.rewrite Spec.EditDoc.rewrite Model.finish
+  simp only
+  rw [ho, hfo, hf.inv, closeAllImplicit_nil_of_clean enc _ _ [] (by rw [hopen]; exact hclean)]
+  refine ⟨by simp [List.append_assoc], hf.nofault, hf.rinv.noUnderflow⟩
+
 end LolHtml.Lemmas.Refine
